@@ -622,14 +622,10 @@ fn run(tier: Tier) -> Sink {
             judge_long::<f32>(p, s);
             judge_stats::<f32>(p, s)
         }
-        Job::Long(p, 2) => {
-            judge_long::<f16>(p, s);
-            judge_stats::<f16>(p, s)
-        }
-        Job::Long(p, _) => {
-            judge_long::<bf16>(p, s);
-            judge_stats::<bf16>(p, s)
-        }
+        // (the statistics are claimed for f32 / f64 only: in the half types an equally valid
+        // variance formula may overflow an intermediate, e.g. (sum x)^2 > 65504)
+        Job::Long(p, 2) => judge_long::<f16>(p, s),
+        Job::Long(p, _) => judge_long::<bf16>(p, s),
     });
     // (W) whole-type windows: bf16 all pairs (quick) / all triples (thorough); f16 pairs
     let wb = window::<bf16>(-3, 3, 7);
@@ -694,14 +690,8 @@ fn replay_case(case: &Value, s: &mut Sink) {
                     judge_long::<f32>(&runs, s);
                     judge_stats::<f32>(&runs, s)
                 }
-                2 => {
-                    judge_long::<f16>(&runs, s);
-                    judge_stats::<f16>(&runs, s)
-                }
-                _ => {
-                    judge_long::<bf16>(&runs, s);
-                    judge_stats::<bf16>(&runs, s)
-                }
+                2 => judge_long::<f16>(&runs, s),
+                _ => judge_long::<bf16>(&runs, s),
             }
         }
     }
